@@ -294,9 +294,8 @@ def _split_sequences(n, depth):
     seqs = []
     for v in range(n):
         for u in list(range(n)) + [n]:      # u == n: the new twin
-            for p1 in PROPS:
-                for p2 in PROPS:
-                    seqs.append([(v, p1), (u, p2)])
+            for (p1, p2) in ((0.3, 0.5), (0.5, 0.3)):
+                seqs.append([(v, p1), (u, p2)])
     return seqs
 
 
@@ -414,8 +413,8 @@ def fam_split(case):
             key = "Network.%s[%s]" % (name, tag)
             if s[0] == "exc":
                 if ill_conditioned(k):
-                    excluded["ill-conditioned"] = \
-                        excluded.get("ill-conditioned", 0) + 1
+                    r = "ill-conditioned: " + name
+                    excluded[r] = excluded.get(r, 0) + 1
                     continue
                 viol.append(V(key + ":raises-after-split:" + dtag,
                               "splits %s: defined on the original network, "
@@ -430,8 +429,8 @@ def fam_split(case):
                 stats["relations_held"] = stats.get("relations_held", 0) + 1
                 continue
             if ill_conditioned(k):
-                excluded["ill-conditioned"] = \
-                    excluded.get("ill-conditioned", 0) + 1
+                r = "ill-conditioned: " + name
+                excluded[r] = excluded.get(r, 0) + 1
                 continue
             viol.append(V(key + ":not-nsi:" + dtag,
                           "splits (node, proportion) %s, weights %s: %s" % (
@@ -559,8 +558,8 @@ def fam_cross(case):
                 key = "InteractingNetworks.%s" % tgt
                 if s[0] == "exc":
                     if ill_conditioned(k):
-                        excluded["ill-conditioned"] = \
-                            excluded.get("ill-conditioned", 0) + 1
+                        r = "ill-conditioned: " + name
+                        excluded[r] = excluded.get(r, 0) + 1
                         continue
                     viol.append(V(key + ":raises-after-split:" + dtag,
                                   "node %d p=%s groups %s %s" % (v, p, L1,
@@ -577,8 +576,8 @@ def fam_cross(case):
                         stats.get("relations_held", 0) + 1
                     continue
                 if ill_conditioned(k):
-                    excluded["ill-conditioned"] = \
-                        excluded.get("ill-conditioned", 0) + 1
+                    r = "ill-conditioned: " + name
+                    excluded[r] = excluded.get(r, 0) + 1
                     continue
                 viol.append(V(key + ":not-nsi:" + dtag,
                               "%s: split node %d (p=%s), groups %s / %s, "
@@ -602,15 +601,16 @@ def run(ctx):
     ctx.rule = (
         "split: every labelled undirected graph on 1..%d nodes and directed "
         "graph on 1..%d nodes%s x weight vectors 1,2 of domains.WEIGHTS x "
-        "every node x proportions %s; iter: iso(5) undirected and iso(4) "
-        "directed x every depth-2 split sequence; cross: iso(1..5) x every "
+        "every node x proportions %s; iter: iso(5) undirected and iso(%d) "
+        "directed x every depth-2 split sequence (v, then v again / the new "
+        "twin / any other node) x proportion pairs (0.3,0.5),(0.5,0.3); cross: iso(1..5) x every "
         "ordered pair of disjoint non-empty groups%s x every node x "
         "proportions.  Every case is non-trivial (a split always changes "
         "N, the weights and the adjacency); distinct = distinct vectors of "
         "base values of all measures." % (
             und_n, dir_n,
             "" if thorough else " plus iso(5) undirected / iso(4) directed",
-            PROPS, "" if thorough else " (n=5: bipartitions only)"))
+            PROPS, 4 if thorough else 3, "" if thorough else " (n=5: bipartitions only)"))
     cases = []
     for n in range(2, und_n + 1):
         cases += [(n, False, m, wi, 1) for (_, _, m) in all_graphs(n, False)
@@ -629,7 +629,8 @@ def run(ctx):
                 "nsi_* method of Network")
     cases = [(5, False, m, wi, 2) for (_, _, m) in iso(5, False)
              for wi in ((1, 2) if thorough else (1,))]
-    cases += [(4, True, m, 1, 2) for (_, _, m) in iso(4, True)]
+    dn = 4 if thorough else 3
+    cases += [(dn, True, m, 1, 2) for (_, _, m) in iso(dn, True)]
     ctx.explore("iter", cases, desc="iterated splits of depth 2")
     cases = []
     for n in range(2, 6):
